@@ -49,6 +49,8 @@ def cells(tier, seed):
                     c['include'] = [rnd.random() < 0.4 for _ in range(J)] if rnd.random() < 0.5 else [False] * J
                 out.append(c)
     rnd.shuffle(out)
+    if tier == 'thorough':
+        out.insert(0, {'suite': True, 'dir': 'suite', 'biort': '-', 'qshift': '-', 'J': 0, 'shape': [], 'o': 2, 'r': -1})
     return out
 
 
@@ -388,6 +390,9 @@ def worker_setup(tier, seed):
 
 
 def run_cell(cell, seed):
+    if cell.get('suite'):
+        from . import c05
+        return c05.suite_cell(cell, PROP, ['tests/test_dtcwt.py'])
     del _FN['log'][:]
     out = forward_dir(cell, seed) if cell['dir'] == 'forward' else inverse_dir(cell, seed)
     seen = set()
